@@ -1868,7 +1868,11 @@ func (ctx *RenderContext) ToString(val interface{}) string {
 	case []byte:
 		return string(v)
 	case fmt.Stringer:
-		return v.String()
+		// a nil pointer whose String method has a value receiver (a nil
+		// *time.Time) cannot be asked: calling it panics
+		if rv := reflect.ValueOf(val); rv.Kind() != reflect.Ptr || !rv.IsNil() {
+			return v.String()
+		}
 	}
 
 	// A pointer to a number, string, slice or map prints what it points to;
